@@ -113,6 +113,9 @@ func cbordecGen(args []string) error {
 				if mt == 3 && l > 0 && r.Intn(4) == 0 {
 					body[r.Intn(l)] = byte(128 + r.Intn(128))
 				}
+				if mt == 3 && l >= 3 && r.Intn(5) == 0 {
+					copy(body[r.Intn(l-2):], "\ufffd")
+				}
 				if mt == 2 {
 					r.Read(body)
 				}
